@@ -294,6 +294,18 @@ func (c *cmp) compare(x *schema.X, e *yang.Entry) {
 			if strings.Join(mk, " ") != strings.Join(x.T.Members, " ") {
 				c.bad(x, "type-union-members", "%s: union members %v, reference %v", p, mk, x.T.Members)
 			}
+			wr := x.T.Range
+			if wr == "" {
+				wr = map[string]string{"int8": "-128..127", "uint32": "0..4294967295"}[x.T.Kind]
+			}
+			if wr != "" {
+				if gr := t.Range.String(); gr != wr {
+					c.bad(x, "type-range", "%s: range %s, reference %s", p, gr, wr)
+				}
+				if x.T.Range != "" {
+					c.Special["range"]++
+				}
+			}
 			gp := append([]string{}, t.POSIXPattern...)
 			wp := append([]string{}, x.T.Posix...)
 			sort.Strings(gp)
